@@ -323,6 +323,13 @@ fn type_layout_for_print(ty: &AirType, program: &AirProgram) -> (u32, u32) {
             .find(|s| s.name == *name)
             .map(|d| struct_size_align(d, program))
             .unwrap_or((0, 1)),
+        // element layout through this function, so that the element may be a struct
+        // (layout_of has no program context and refuses structs); stride = element size
+        AirType::Array(inner, n) => {
+            let (size, align) = type_layout_for_print(inner, program);
+            let total = (size as u64).saturating_mul(*n);
+            (u32::try_from(total).unwrap_or(u32::MAX), align)
+        }
         _ => {
             let l = layout::layout_of(ty);
             (l.size, l.align)
